@@ -43,8 +43,9 @@ JournalNamesOK(J, F, cf, before) == \A f \in F : J[f].st = "offset" => (f = cf /
 
 \* after a handled I/O error (cls = class of the failing operation; the journal's own unlink is waived: if the
 \* unlink is what fails the journal cannot be gone, and the record is complete)
-FaultContentOK(cls, before, after) == cls \in {"journal", "archive"} => after = before
-FaultJournalOK(cls, j)            == cls \in {"journal", "archive"} => j.st = "absent"
+\* (an error while the line of the record is added to the CDX index is an error of the append too)
+FaultContentOK(cls, before, after) == cls \in {"journal", "archive", "cdx"} => after = before
+FaultJournalOK(cls, j)            == cls \in {"journal", "archive", "cdx"} => j.st = "absent"
 
 (* ---- C05 ---- *)
 AllMembers(D, F) == UNION {{<<f, i>> : i \in 1..Len(D[f])} : f \in F}
